@@ -307,6 +307,8 @@ func (h *heapRun) applyQuery(o *obj, st Step, ret map[string]interface{}) bool {
 	switch q {
 	case "fasta":
 		ret["n"] = len(fasta.WriteAlignment(al))
+	case "fastaseq":
+		ret["n"] = len(fasta.WriteSequences(al)) // the writer of sequence sets: residues only, gaps left out
 	case "phylip":
 		ret["n"] = len(phylip.WriteAlignment(al, false, false, false))
 	case "nexus":
